@@ -121,8 +121,9 @@ class Dispatch:
         if f is None:
             raise Refuse("numba_mi not found")
         params = [a.arg for a in f.args.args]
-        if len(params) < 3 or params[:2] != ["vector_first", "vector_second"] or SUBJECT not in params:
+        if len(params) < 3:
             raise Refuse("%s: numba_mi parameters %s not recognised" % (self.where(f), params))
+        subj = SUBJECT if SUBJECT in params else params[2]     # the heuristic name is the third parameter
         flag_expr = None
         flag_var = None
         for st in ast.walk(f):
@@ -153,16 +154,18 @@ class Dispatch:
             return ("true" if passed.value else "false"), self.text(passed)
         else:
             e = passed
-        return self.test(e, {SUBJECT}, None), self.text(e)
+        return self.test(e, {subj}, None), self.text(e)
 
     # -- branch bodies --------------------------------------------------------------------------
     def scorer_of_value(self, v, flag, names, args_name):
         """value expression assigned to `score` -> scorer term (or None for a numeric constant 0)"""
         def vec_args(call, extra_ok):
             a = call.args
-            if len(a) < 2 or not (isinstance(a[0], ast.Name) and a[0].id == "vector_first"
-                                  and isinstance(a[1], ast.Name) and a[1].id == "vector_second"):
-                raise Refuse("%s: scorer not applied to (vector_first, vector_second): %s" % (self.where(call), self.text(call)))
+            # either order: which column conditions is part of the hand-written model and is held by the
+            # correspondence (only the corrected numba score is asymmetric), not by this table
+            if len(a) < 2 or not all(isinstance(x, ast.Name) for x in a[:2]) \
+                    or {a[0].id, a[1].id} != {"vector_first", "vector_second"}:
+                raise Refuse("%s: scorer not applied to the two column vectors: %s" % (self.where(call), self.text(call)))
             if not extra_ok and (len(a) != 2 or call.keywords):
                 raise Refuse("%s: unexpected extra arguments: %s" % (self.where(call), self.text(call)))
             return a[2:]
@@ -259,8 +262,8 @@ class Dispatch:
                 continue    # docstring
             if isinstance(st, ast.Assign) and len(st.targets) == 1 and isinstance(st.targets[0], ast.Name):
                 tgt = st.targets[0].id
-                if tgt == SUBJECT and self.is_subject(st.value, set(), args_name) and chain is None:
-                    names.add(SUBJECT)
+                if self.is_subject(st.value, set(), args_name) and chain is None and tgt != "score":
+                    names.add(tgt)      # local alias of args.heuristic
                     continue
                 if tgt == "score" and chain is None:
                     if self.scorer_of_value(st.value, flag, names, args_name) is not None:
